@@ -317,6 +317,255 @@ TARGETS = [
 ]
 
 
+# ---- the per-kind loaders of builder_loader.py: the exported device dictionary `d` is the record bdev -----------------------
+KIND_OF = {'load': 'BLoad', 'fixed_load': 'BFixed', 'supply': 'BSupply', 'storage': 'BStorage', 'thermal_load': 'BThermal'}
+CLASS_OF = {'ADevice': 'LADevice', 'SDevice': 'LSDevice'}
+
+
+def cstr(x):
+  if not isinstance(x, str) or '"' in x:
+    raise Unsupported('?:?:string %r' % (x,))
+  return '"%s"%%string' % x
+
+
+class LTx:
+  """statements of one loader function, in continuation-passing style for the calls that may raise (run_to_array)"""
+  def __init__(self):
+    self.n = 0
+
+  def fresh(self, base):
+    self.n += 1
+    return '%s_%d' % (base, self.n)
+
+  def is_d(self, e, env, key):
+    return isinstance(e, ast.Subscript) and isinstance(e.value, ast.Name) and e.value.id in env and env[e.value.id][1] == 'D' and \
+        isinstance(e.slice, ast.Constant) and e.slice.value == key
+
+  def is_param(self, e, env):
+    """d['parameters'][<const>] -> key"""
+    if isinstance(e, ast.Subscript) and self.is_d(e.value, env, 'parameters') and isinstance(e.slice, ast.Constant) and isinstance(e.slice.value, str):
+      return e.slice.value
+    return None
+
+  def ex(self, e, env, k):
+    """k : (term, type) -> Coq text of the rest of the computation (an outcome)"""
+    if isinstance(e, ast.Name):
+      if e.id in env:
+        return k(env[e.id])
+      U(e, 'name %s' % e.id)
+    if isinstance(e, ast.Constant) and e.value is None:
+      return k(('None', 'NONE'))
+    # d['title'] if 'title' in d else d['type']
+    if isinstance(e, ast.IfExp) and isinstance(e.test, ast.Compare) and len(e.test.ops) == 1 and isinstance(e.test.ops[0], ast.In) and \
+       isinstance(e.test.left, ast.Constant) and e.test.left.value == 'title' and isinstance(e.test.comparators[0], ast.Name) and \
+       env.get(e.test.comparators[0].id, (None, None))[1] == 'D' and self.is_d(e.body, env, 'title') and self.is_d(e.orelse, env, 'type'):
+      return k(('(match b_title d with Some t => t | None => type_name (b_kind d) end)', 'ID'))
+    if isinstance(e, ast.Call):
+      f = un(e.func)
+      kws = {kw.arg: kw.value for kw in e.keywords}
+      if f == 'run_to_array' and len(e.args) == 1 and not kws and self.is_d(e.args[0], env, 'bounds'):
+        v = self.fresh('t')
+        return '(obind (run_to_array_gen (n0, n0) basis (b_bounds d)) (fun %s => %s))' % (v, k((v, 'TABLE')))
+      if f == 'load_cbounds' and len(e.args) == 1 and not kws and isinstance(e.args[0], ast.Name) and env.get(e.args[0].id, (0, 0))[1] == 'D':
+        return k(('(load_cbounds_gen basis d)', 'OCB'))
+      if f == 'load_cost_function':
+        return k(('tt', 'SKIP'))       # cost curves are not part of the loader model
+      if f == 'np.stack' and len(e.args) == 1 and set(kws) == {'axis'} and un(kws['axis']) == '1' and isinstance(e.args[0], ast.Tuple) and len(e.args[0].elts) == 2:
+        return self.ex(e.args[0].elts[0], env, lambda a: self.ex(e.args[0].elts[1], env, lambda b:
+            k(('(stack_cols %s %s)' % (a[0], b[0]), 'TABLE')) if (a[1], b[1]) == ('VEC', 'VEC') else U(e, 'np.stack of %s, %s' % (a[1], b[1]))))
+      if f == 'tuple' and len(e.args) == 1 and not kws:
+        return self.ex(e.args[0], env, lambda a: k(a) if a[1] == 'CLIP' else U(e, 'tuple of %s' % a[1]))
+      if isinstance(e.func, ast.Attribute) and e.func.attr in ('all', 'any') and not e.args and not kws:
+        fn = 'forallb' if e.func.attr == 'all' else 'existsb'
+        return self.ex(e.func.value, env, lambda a: k(('(%s (fun b => b) %s)' % (fn, a[0]), 'B')) if a[1] == 'BVEC' else U(e, '.%s() of %s' % (e.func.attr, a[1])))
+      # device_kit.<Class>(device_id, basis, bounds[, cbounds], **params)
+      if isinstance(e.func, ast.Attribute) and un(e.func.value) == 'device_kit' and e.func.attr in CLASS_OF:
+        pos = e.args
+        star = [kw for kw in e.keywords if kw.arg is None]
+        if any(kw.arg is not None for kw in e.keywords) or len(star) > 1 or not (3 <= len(pos) <= 4):
+          U(e, 'constructor call')
+        def with_args(vals):
+          tys = [t for _, t in vals]
+          if tys[:3] != ['ID', 'N', 'TABLE'] or (len(vals) == 4 and tys[3] != 'OCB'):
+            U(e, 'constructor arguments %s' % tys)
+          cb = vals[3][0] if len(vals) == 4 else 'None'
+          if star:
+            pv = env.get(un(star[0].value))
+            if pv is None or pv[1] != 'PARAMS':
+              U(e, '**%s' % un(star[0].value))
+            ps, clip = pv[0], pv[2] if len(pv) > 2 and pv[2] else '(None, None)'
+          else:
+            ps, clip = '[]', '(None, None)'
+          return k(('(construct_id %s %s %s %s %s %s)' % (vals[0][0], CLASS_OF[e.func.attr], vals[2][0], cb, ps, clip), 'OUT'))
+        def go(i, acc):
+          if i == len(pos):
+            return with_args(acc)
+          return self.ex(pos[i], env, lambda a: go(i + 1, acc + [a]))
+        return go(0, [])
+      U(e, 'call %s' % f)
+    if isinstance(e, ast.BinOp) and isinstance(e.op, ast.Mult) and un(e.left) == '-1':
+      return self.ex(e.right, env, lambda a: k(('(table_neg %s)' % a[0], 'TABLE')) if a[1] == 'TABLE' else U(e, '-1 * %s' % a[1]))
+    # bounds[:, j]
+    if isinstance(e, ast.Subscript) and isinstance(e.slice, ast.Tuple) and len(e.slice.elts) == 2 and un(e.slice.elts[0]) == ':' and \
+       isinstance(e.slice.elts[1], ast.Constant) and e.slice.elts[1].value in (0, 1):
+      j = e.slice.elts[1].value
+      return self.ex(e.value, env, lambda a: k(('(map %s %s)' % ('fst' if j == 0 else 'snd', a[0]), 'VEC')) if a[1] == 'TABLE' else U(e, 'column of %s' % a[1]))
+    if isinstance(e, ast.Compare) and len(e.ops) == 1 and isinstance(e.ops[0], (ast.NotEq, ast.Eq)):
+      neg = isinstance(e.ops[0], ast.NotEq)
+      return self.ex(e.left, env, lambda a: self.ex(e.comparators[0], env, lambda b:
+          k(('(map (fun ab => %s(fst ab =? snd ab)) (combine %s %s))' % ('negb ' if neg else '', a[0], b[0]), 'BVEC'))
+          if (a[1], b[1]) == ('VEC', 'VEC') else U(e, 'comparison of %s, %s' % (a[1], b[1]))))
+    if isinstance(e, ast.Dict):
+      if not e.keys:
+        return k(('[]', 'PARAMS', None))
+      if all(isinstance(x, ast.Constant) and isinstance(x.value, str) for x in e.keys) and all(isinstance(x, ast.Constant) and isinstance(x.value, str) for x in e.values):
+        return k(('[%s]' % '; '.join('(%s, %s)' % (cstr(a.value), cstr(b.value)) for a, b in zip(e.keys, e.values)), 'SMAP'))
+      U(e, 'dictionary display')
+    # { parameter_map[k]: v for k, v in d['parameters'].items() if k in parameter_map }
+    if isinstance(e, ast.DictComp) and len(e.generators) == 1:
+      g = e.generators[0]
+      if isinstance(g.target, ast.Tuple) and len(g.target.elts) == 2 and all(isinstance(x, ast.Name) for x in g.target.elts) and \
+         isinstance(g.iter, ast.Call) and isinstance(g.iter.func, ast.Attribute) and g.iter.func.attr == 'items' and self.is_d(g.iter.func.value, env, 'parameters') and len(g.ifs) == 1:
+        kk, vv = (x.id for x in g.target.elts)
+        t = g.ifs[0]
+        if isinstance(t, ast.Compare) and len(t.ops) == 1 and isinstance(t.ops[0], ast.In) and un(t.left) == kk and isinstance(t.comparators[0], ast.Name) and \
+           env.get(t.comparators[0].id, (0, 0))[1] == 'SMAP' and un(e.key) == '%s[%s]' % (t.comparators[0].id, kk) and un(e.value) == vv:
+          return k(('(remap %s (b_params d))' % env[t.comparators[0].id][0], 'PARAMS', None))
+      U(e, 'dictionary comprehension')
+    if isinstance(e, ast.List) and len(e.elts) == 2 and all(isinstance(x, ast.Constant) and x.value is None for x in e.elts):
+      return k((['None', 'None'], 'CLIPLIST'))
+    U(e, 'expression %s' % un(e))
+
+  def block(self, body, env):
+    if not body:
+      U(ast.Pass(), 'function falls off its end')
+    s, rest = body[0], body[1:]
+    if isinstance(s, ast.Expr) and (isinstance(s.value, ast.Constant) or (isinstance(s.value, ast.Call) and un(s.value.func).startswith('logger.'))):
+      return self.block(rest, env)
+    if isinstance(s, ast.Return) and s.value is not None:
+      return self.ex(s.value, env, lambda a: a[0] if a[1] == 'OUT' else U(s, 'returns %s' % a[1]))
+    if isinstance(s, ast.Assign) and len(s.targets) == 1:
+      t = s.targets[0]
+      if isinstance(t, ast.Name):
+        def bind(a):
+          env2 = dict(env)
+          if a[1] in ('SKIP',):
+            env2[t.id] = a
+            return self.block(rest, env2)
+          if a[1] == 'CLIPLIST':
+            env2[t.id] = a
+            return self.block(rest, env2)
+          if a[1] == 'PARAMS':
+            v = self.fresh(t.id)
+            env2[t.id] = (v, 'PARAMS', a[2] if len(a) > 2 else None)
+            return '(let %s := %s in %s)' % (v, a[0], self.block(rest, env2))
+          v = self.fresh(t.id)
+          env2[t.id] = (v, a[1])
+          return '(let %s := %s in %s)' % (v, a[0], self.block(rest, env2))
+        return self.ex(s.value, env, bind)
+      # params['rate_clip'] = tuple(rate_clip)
+      if isinstance(t, ast.Subscript) and isinstance(t.value, ast.Name) and env.get(t.value.id, (0, 0))[1] == 'PARAMS' and \
+         isinstance(t.slice, ast.Constant) and t.slice.value == 'rate_clip' and un(s.value).startswith('tuple(') and isinstance(s.value, ast.Call) and \
+         len(s.value.args) == 1 and isinstance(s.value.args[0], ast.Name) and env.get(s.value.args[0].id, (0, 0))[1] == 'CLIPLIST':
+        cl = env[s.value.args[0].id][0]
+        env2 = dict(env)
+        pv = env[t.value.id]
+        env2[t.value.id] = (pv[0], 'PARAMS', '(%s, %s)' % (cl[0], cl[1]))
+        return self.block(rest, env2)
+      U(s, 'assignment target %s' % un(t))
+    if isinstance(s, ast.If) and not s.orelse:
+      # if cost_function: params = {'f': ...}      (cost curves are not modelled: no effect on the loaded record)
+      if isinstance(s.test, ast.Name) and env.get(s.test.id, (0, 0))[1] == 'SKIP' and len(s.body) == 1 and isinstance(s.body[0], ast.Assign) and \
+         isinstance(s.body[0].targets[0], ast.Name) and env.get(s.body[0].targets[0].id, (0, 0))[1] == 'PARAMS' and isinstance(s.body[0].value, ast.Dict) and \
+         [un(x) for x in s.body[0].value.keys] == ["'f'"]:
+        return self.block(rest, env)
+      # if 'K' in d['parameters']: rate_clip[i] = d['parameters']['K']
+      if isinstance(s.test, ast.Compare) and len(s.test.ops) == 1 and isinstance(s.test.ops[0], ast.In) and isinstance(s.test.left, ast.Constant) and \
+         isinstance(s.test.left.value, str) and self.is_d(s.test.comparators[0], env, 'parameters') and len(s.body) == 1 and isinstance(s.body[0], ast.Assign):
+        a = s.body[0]
+        t = a.targets[0]
+        if isinstance(t, ast.Subscript) and isinstance(t.value, ast.Name) and env.get(t.value.id, (0, 0))[1] == 'CLIPLIST' and \
+           isinstance(t.slice, ast.Constant) and t.slice.value in (0, 1) and self.is_param(a.value, env) == s.test.left.value:
+          cl = list(env[t.value.id][0])
+          cl[t.slice.value] = '(match pget %s (b_params d) with Some v => Some v | None => %s end)' % (cstr(s.test.left.value), cl[t.slice.value])
+          env2 = dict(env)
+          env2[t.value.id] = (cl, 'CLIPLIST')
+          return self.block(rest, env2)
+      # if <test>: raise Exception(...)
+      if len(s.body) == 1 and isinstance(s.body[0], ast.Raise) and isinstance(s.body[0].exc, ast.Call) and un(s.body[0].exc.func) == 'Exception':
+        return self.ex(s.test, env, lambda c: '(if %s then RaiseOther else %s)' % (c[0], self.block(rest, env)) if c[1] == 'B' else U(s, 'test of type %s' % c[1]))
+      U(s, 'conditional')
+    U(s, 'statement')
+
+
+def translate_loader(fn):
+  names = [a.arg for a in fn.args.args]
+  if names != ['d', 'basis']:
+    U(fn, 'parameters %s' % names)
+  return LTx().block(list(fn.body), {'d': ('d', 'D'), 'basis': ('basis', 'N')})
+
+
+def translate_load_cbounds(fn):
+  if [a.arg for a in fn.args.args] != ['d']:
+    U(fn, 'parameters')
+  body = [s for s in fn.body if not (isinstance(s, ast.Expr) and isinstance(s.value, ast.Constant))]
+  if len(body) == 1 and isinstance(body[0], ast.If) and not body[0].orelse and un(body[0].test) == "'cumulative_bounds' in d":
+    inner = [s for s in body[0].body if not (isinstance(s, ast.Expr) and isinstance(s.value, ast.Call) and un(s.value.func).startswith('logger.'))]
+    if len(inner) == 1 and isinstance(inner[0], ast.Return) and un(inner[0].value) == "run_to_cbounds_array(d['cumulative_bounds'])":
+      return '(match b_cum d with Some r => Some (run_to_cbounds_array_gen basis r) | None => None end)'
+  U(fn, 'load_cbounds')
+
+
+def translate_load_data(fn, kinds):
+  """basis = data['basis']; data = data['devices']; devices = []; for d in data: loader = globals()['load_%s_device' % (d['type'],)];
+  devices.append(loader(d, basis)); return device_kit.DeviceSet(<name>, devices)      ->  a left-to-right fold in the outcome monad"""
+  if [a.arg for a in fn.args.args] != ['data']:
+    U(fn, 'parameters')
+  body = [s for s in fn.body if not (isinstance(s, ast.Expr) and (isinstance(s.value, ast.Constant) or un(getattr(s.value, 'func', s.value)).startswith('logger.')))]
+  if len(body) != 5 or un(body[0]) != "basis = data['basis']" or un(body[1]) != "data = data['devices']" or un(body[2]) != 'devices = []':
+    U(fn, 'load_data prologue')
+  loop, ret = body[3], body[4]
+  if not (isinstance(loop, ast.For) and un(loop.target) == 'd' and un(loop.iter) == 'data' and not loop.orelse):
+    U(loop, 'load_data loop')
+  lb = [s for s in loop.body if not (isinstance(s, ast.Expr) and isinstance(s.value, ast.Call) and un(s.value.func).startswith('logger.'))]
+  if [un(x) for x in lb] != ["loader = globals()['load_%s_device' % (d['type'],)]", 'devices.append(loader(d, basis))']:
+    U(loop, 'load_data loop body')
+  if not (isinstance(ret, ast.Return) and isinstance(ret.value, ast.Call) and un(ret.value.func) == 'device_kit.DeviceSet' and len(ret.value.args) == 2 and un(ret.value.args[1]) == 'devices'):
+    U(ret, 'load_data result')
+  return '(fold_left (fun acc d => obind acc (fun devices => obind (load_device_gen basis d) (fun x => Accept (devices ++ [x])))) data (Accept []))'
+
+
+LOADER_TARGETS = [('load', 'load_load_device'), ('fixed_load', 'load_fixed_load_device'), ('supply', 'load_supply_device'), ('storage', 'load_storage_device')]
+
+
+def gen_kind_loaders(fns):
+  """-> (lines, translated, untranslated)"""
+  out, tr, untr = [], [], []
+  def emit(name, sig, f, fallback):
+    head = 'Definition %s_gen %s :=' % (name, sig)
+    try:
+      if name not in fns:
+        raise Unsupported('?:Module:%s not found' % name)
+      body = f(fns[name])
+      tr.append(name + '_gen')
+      out.append('(* builder_loader.py: %s *)' % name)
+    except Unsupported as e:
+      body = fallback
+      untr.append(name + '_gen')
+      out.append('(* builder_loader.py: %s NOT TRANSLATED (%s): alias of the hand-written model, tie falls back to the correspondence *)' % (name, str(e).replace('*)', '* )')))
+    out.append(head + '\n  ' + body + '.\n')
+  emit('load_cbounds', '(basis : nat) (d : bdev A) : option (list (cbound A))', translate_load_cbounds, 'option_map (run_to_cbounds basis) (b_cum d)')
+  for kind, name in LOADER_TARGETS:
+    emit(name, '(basis : nat) (d : bdev A) : outcome (loaded A)', translate_loader,
+         'load_device basis {| b_kind := %s; b_title := b_title d; b_bounds := b_bounds d; b_cum := b_cum d; b_params := b_params d |}' % KIND_OF[kind])
+  # the dispatch by name: globals()['load_%s_device' % d['type']]   (load_thermal_load_device is not translated: the model's outcome, see the open finding)
+  out.append('Definition load_device_gen (basis : nat) (d : bdev A) : outcome (loaded A) :=\n  match b_kind d with %s | BThermal => load_device basis d end.\n' % (
+      ' | '.join('%s => %s_gen basis d' % (KIND_OF[k], n) for k, n in LOADER_TARGETS)))
+  emit('load_data', '(basis : nat) (data : list (bdev A)) : outcome (list (loaded A))', lambda f: translate_load_data(f, None),
+       'load_data basis data')
+  return out, tr, untr
+
+
 def translate(fn, params, cfg):
   names = [a.arg for a in fn.args.args]
   if names != params or fn.args.defaults or fn.args.kwonlyargs or fn.args.vararg or fn.args.kwarg:
@@ -334,7 +583,7 @@ def translate(fn, params, cfg):
 def gen_loaders(repo):
   out = ['(* GENERATED by translator/loaders_tx.py from device_kit/loaders/builder_loader.py and device_kit/utils.py -- do not edit. *)',
          'From Coq Require Import ZArith List Bool Arith.', 'From DK Require Import Num Vec.', 'From DK.Model Require Import Leaf Loader LoaderOps.',
-         'Import ListNotations.', '']
+         'From Coq Require Import String.', 'Import ListNotations.', '']
   trees = {}
   translated, untranslated = [], []
   defs = {'V': [], 'A': []}
@@ -359,7 +608,10 @@ def gen_loaders(repo):
           os.path.basename(rel), name, str(e).replace('*)', '* )')))
     defs[sec].append(head + '\n  ' + body + '.\n')
   out += ['Section GenRuns.', 'Context {V : Type}.'] + defs['V'] + ['End GenRuns.', '']
-  out += ['Section GenLoaders.', 'Context {A : Type} `{Num A}.', 'Local Open Scope num_scope.'] + defs['A'] + ['End GenLoaders.']
+  kl, ktr, kuntr = gen_kind_loaders(trees.get('loaders/builder_loader.py', {}))
+  translated += ktr
+  untranslated += kuntr
+  out += ['Section GenLoaders.', 'Context {A : Type} `{Num A}.', 'Local Open Scope num_scope.'] + defs['A'] + kl + ['End GenLoaders.']
   out.append('From Coq Require Import String.')
   out.append('Definition loaders_translated : list String.string := [%s]%%string.' % '; '.join('"%s"' % x for x in translated))
   out.append('Definition loaders_untranslated : list String.string := [%s]%%string.' % '; '.join('"%s"' % x for x in untranslated))
